@@ -1,1 +1,730 @@
+(* NamespacesFacts.v -- proofs about the namespace model (C15) *)
 From CssV Require Import Base Namespaces.
+
+(* ------------------------------------------------------------------ small list facts *)
+Lemma mems_In x l : mems x l = true <-> In x l.
+Proof.
+  induction l as [|y t IH]; simpl; [split; [discriminate|tauto]|].
+  rewrite orb_true_iff, eqs_spec, IH. tauto.
+Qed.
+
+Lemma eqs_false a b : eqs a b = false <-> a <> b.
+Proof.
+  split; intros H.
+  - intros E. apply eqs_spec in E. congruence.
+  - destruct (eqs a b) eqn:E; [apply eqs_spec in E; contradiction|reflexivity].
+Qed.
+
+Lemma items_of_app a b : items_of (a ++ b) = items_of a ++ items_of b.
+Proof. unfold items_of. apply flat_map_app. Qed.
+
+Lemma nsl_app a b : nsl (a ++ b) = nsl a ++ nsl b.
+Proof. induction a as [|r a IH]; simpl; [reflexivity|]. destruct r; simpl; rewrite IH; reflexivity. Qed.
+
+Lemma existsb_app' {A} (f : A -> bool) a b : existsb f (a ++ b) = existsb f a || existsb f b.
+Proof. apply existsb_app. Qed.
+
+(* ------------------------------------------------------------------ A. prefix resolution *)
+Lemma undeclared_rejected d k p n its :
+  In (PSel k (FPfx p) n) its -> dget d p = None -> resolve_all d its = None.
+Proof.
+  induction its as [|x t IH]; simpl; [tauto|]. intros [->|Hin] Hd.
+  - simpl. rewrite Hd. destruct k; reflexivity.
+  - rewrite (IH Hin Hd). destruct (resolve d x); reflexivity.
+Qed.
+
+Definition default_of (d : dict) : nsuri := match dget d [] with Some u => UStr u | None => UNone end.
+
+(* what the property demands of the stored item for a selector written with the given prefix form *)
+Definition binds (d : dict) (pi : pitem) (it : item) : Prop :=
+  match pi with
+  | POther => it = IOther
+  | PSel k (FPfx p) n => exists u, dget d p = Some u /\ it = IPair k (UStr u) n
+  | PSel k FStar n => it = IPair k UAny n
+  | PSel KAttr FNone n | PSel KAttr FEmpty n => it = IAttr n
+  | PSel k FNone n => it = IPair k (default_of d) n
+  | PSel k FEmpty n => it = IPair k (UStr []) n
+  end.
+
+Lemma resolve_binds d pi it : resolve d pi = Some it -> binds d pi it.
+Proof.
+  destruct pi as [k f n|]; simpl; [|congruence].
+  destruct k, f; simpl; unfold default_of; try (intros H; inversion H; reflexivity);
+    destruct (dget d p) eqn:E; try discriminate; intros H; inversion H; eauto.
+Qed.
+
+Lemma resolve_all_binds d its r : resolve_all d its = Some r -> Forall2 (binds d) its r.
+Proof.
+  revert r; induction its as [|x t IH]; simpl; intros r H.
+  - inversion H. constructor.
+  - destruct (resolve d x) eqn:E1; [|discriminate]. destruct (resolve_all d t) eqn:E2; [|discriminate].
+    inversion H; subst. constructor; [now apply resolve_binds|now apply IH].
+Qed.
+
+(* the dictionary in force while the rule sets are parsed: later declarations of a prefix replace earlier ones *)
+Lemma dget_dset_same d k v : dget (dset d k v) k = Some v.
+Proof.
+  induction d as [|[k' v'] t IH]; simpl.
+  - now rewrite eqs_refl.
+  - destruct (eqs k' k) eqn:E; simpl; rewrite E; [reflexivity|exact IH].
+Qed.
+Lemma dget_dset_other d k v k2 : k2 <> k -> dget (dset d k v) k2 = dget d k2.
+Proof.
+  intros Hne. induction d as [|[k' v'] t IH]; simpl.
+  - destruct (eqs k k2) eqn:E; [apply eqs_spec in E; congruence|reflexivity].
+  - destruct (eqs k' k) eqn:E; simpl.
+    + apply eqs_spec in E. subst k'. destruct (eqs k k2) eqn:E2; [apply eqs_spec in E2; congruence|reflexivity].
+    + destruct (eqs k' k2); [reflexivity|exact IH].
+Qed.
+
+(* ------------------------------------------------------------------ B. frame: namespace operations never touch a selector *)
+Lemma items_of_insert_ns i r sh : items_of (insert_at i (RNs r) sh) = items_of sh.
+Proof.
+  revert sh; induction i as [|i IH]; intros sh; [reflexivity|].
+  destruct sh as [|y t]; [reflexivity|]. simpl. unfold items_of in *. simpl. now rewrite IH.
+Qed.
+
+Lemma items_of_remove i sh x :
+  nth_error sh i = Some x -> rule_items x = [] -> items_of (remove_at i sh) = items_of sh.
+Proof.
+  revert i; induction sh as [|y t IH]; intros [|i] H Hx; simpl in *; try discriminate.
+  - inversion H; subst. unfold items_of. simpl. now rewrite Hx.
+  - unfold items_of in *. simpl. now rewrite (IH i H Hx).
+Qed.
+
+Lemma items_of_upd k f sh : items_of (upd_ns k f sh) = items_of sh.
+Proof.
+  revert k; induction sh as [|y t IH]; intros k; [reflexivity|].
+  destruct y; simpl; try (unfold items_of in *; simpl; now rewrite IH).
+  destruct k; [reflexivity|]. unfold items_of in *. simpl. now rewrite IH.
+Qed.
+
+Lemma items_of_clean_loop v rest : forall kept,
+  items_of (fst (clean_loop v kept rest)) = items_of (kept ++ rest).
+Proof.
+  induction rest as [|x t IH]; intros kept; simpl; [now rewrite app_nil_r|].
+  destruct x; try (rewrite IH, <- app_assoc; reflexivity).
+  destruct (pair_in (prefix r) (uri r) v); [rewrite IH, <- app_assoc; reflexivity|].
+  destruct (can_delete r (kept ++ RNs r :: t)); simpl; [|reflexivity].
+  rewrite IH. rewrite !items_of_app. reflexivity.
+Qed.
+
+Lemma items_of_clean sh : items_of (fst (clean sh)) = items_of sh.
+Proof. unfold clean. now rewrite items_of_clean_loop. Qed.
+
+Lemma items_of_insert r idx io sh : items_of (fst (insert_ns r idx io sh)) = items_of sh.
+Proof.
+  unfold insert_ns. destruct (place_ns idx io sh); [|reflexivity].
+  destruct (same_binding (view sh) r); [reflexivity|].
+  now rewrite items_of_clean, items_of_insert_ns.
+Qed.
+
+Lemma items_of_delete_ns i sh r :
+  nth_error sh i = Some (RNs r) -> items_of (fst (delete_rule i sh)) = items_of sh.
+Proof.
+  intros H. unfold delete_rule. rewrite H. destruct (can_delete r sh); [|reflexivity].
+  simpl. now apply (items_of_remove i sh (RNs r)).
+Qed.
+
+(* order invariant: once a rule set or @media block has been seen there is no @namespace rule any more *)
+Fixpoint ordered (sh : sheet) : bool :=
+  match sh with
+  | [] => true
+  | r :: t => if is_body r then negb (existsb is_ns t) else ordered t
+  end.
+
+Lemma no_ns_ordered sh : existsb is_ns sh = false -> ordered sh = true.
+Proof.
+  induction sh as [|r t IH]; simpl; [reflexivity|]. intros H. apply orb_false_iff in H as [H1 H2].
+  destruct (is_body r); [now rewrite H2|now apply IH].
+Qed.
+
+Lemma no_ns_nsl sh : existsb is_ns sh = false -> nsl sh = [].
+Proof.
+  induction sh as [|r t IH]; simpl; [reflexivity|]. intros H. apply orb_false_iff in H as [H1 H2].
+  destruct r; simpl in *; try discriminate; now apply IH.
+Qed.
+
+Lemma existsb_remove {A} (f : A -> bool) i l : existsb f l = false -> existsb f (remove_at i l) = false.
+Proof.
+  revert i; induction l as [|x t IH]; intros [|i]; simpl; auto; intros H; apply orb_false_iff in H as [H1 H2]; auto.
+  rewrite H1. simpl. now apply IH.
+Qed.
+
+Lemma ordered_remove i sh : ordered sh = true -> ordered (remove_at i sh) = true.
+Proof.
+  revert i; induction sh as [|r t IH]; intros [|i] H; simpl in *; auto.
+  - destruct (is_body r); [|exact H]. apply no_ns_ordered. now apply negb_true_iff in H.
+  - destruct (is_body r); [|now apply IH]. apply negb_true_iff in H. apply negb_true_iff. now apply existsb_remove.
+Qed.
+
+Lemma ordered_remove_mid a x b : ordered (a ++ x :: b) = true -> ordered (a ++ b) = true.
+Proof.
+  induction a as [|r a IH]; simpl; intros H.
+  - destruct (is_body x); [|exact H]. apply negb_true_iff in H. now apply no_ns_ordered.
+  - destruct (is_body r); [|now apply IH]. apply negb_true_iff in H. apply negb_true_iff.
+    rewrite existsb_app in *. simpl in H. apply orb_false_iff in H as [H1 H2]. apply orb_false_iff in H2 as [_ H2].
+    now rewrite H1, H2.
+Qed.
+
+Lemma ordered_insert i r sh :
+  existsb is_body (firstn i sh) = false -> ordered sh = true -> ordered (insert_at i (RNs r) sh) = true.
+Proof.
+  revert sh; induction i as [|i IH]; intros sh Hb Ho; simpl; [exact Ho|].
+  destruct sh as [|y t]; [reflexivity|]. simpl in *. apply orb_false_iff in Hb as [Hy Hb].
+  rewrite Hy in *. now apply IH.
+Qed.
+
+Lemma ordered_upd k f sh : ordered (upd_ns k f sh) = ordered sh.
+Proof.
+  assert (E : forall k sh, existsb is_ns (upd_ns k f sh) = existsb is_ns sh).
+  { clear. intros k sh; revert k; induction sh as [|y t IH]; intros k; [reflexivity|].
+    destruct y; simpl; try now rewrite IH. destruct k; simpl; [reflexivity|reflexivity]. }
+  revert k; induction sh as [|y t IH]; intros k; [reflexivity|].
+  destruct y; simpl; try (now rewrite ?E, ?IH).
+  destruct k; simpl; [reflexivity|apply IH].
+Qed.
+
+Lemma ordered_clean_loop v rest : forall kept,
+  ordered (kept ++ rest) = true -> ordered (fst (clean_loop v kept rest)) = true.
+Proof.
+  induction rest as [|x t IH]; intros kept H; simpl; [now rewrite app_nil_r in H|].
+  destruct x; try (apply IH; rewrite <- app_assoc; exact H).
+  destruct (pair_in (prefix r) (uri r) v); [apply IH; rewrite <- app_assoc; exact H|].
+  destruct (can_delete r (kept ++ RNs r :: t)); simpl; [|exact H].
+  apply IH. now apply ordered_remove_mid in H.
+Qed.
+
+(* the prefix of the sheet that precedes (and includes) the last @namespace rule holds no rule set *)
+Lemma after_last_ns_spec sh : forall i acc j,
+  after_last_ns sh i acc = Some j ->
+  (acc = Some j) \/ (exists a b r, sh = a ++ RNs r :: b /\ j = i + S (length a)).
+Proof.
+  induction sh as [|x t IH]; intros i acc j H; simpl in H; [now left|].
+  apply IH in H as [H|(a & b & r & -> & ->)].
+  - destruct (is_ns x) eqn:E; [|now left]. inversion H; subst. right. destruct x; try discriminate.
+    exists [], t, r. split; [reflexivity|simpl; lia].
+  - right. exists (x :: a), b, r. split; [reflexivity|simpl; lia].
+Qed.
+
+Lemma ordered_prefix_nobody a r b : ordered (a ++ RNs r :: b) = true -> existsb is_body a = false.
+Proof.
+  induction a as [|x a IH]; simpl; [reflexivity|]. intros H.
+  destruct (is_body x) eqn:E; [|now apply IH].
+  apply negb_true_iff in H. rewrite existsb_app in H. simpl in H. apply orb_false_iff in H as [_ H]. discriminate.
+Qed.
+
+Lemma first_index_spec {A} (f : A -> bool) l : forall i j,
+  first_index f l i = Some j -> exists k, j = i + k /\ existsb f (firstn k l) = false.
+Proof.
+  induction l as [|x t IH]; intros i j H; simpl in H; [discriminate|].
+  destruct (f x) eqn:E.
+  - inversion H; subst. exists 0. split; [lia|reflexivity].
+  - apply IH in H as (k & -> & Hk). exists (S k). split; [lia|]. simpl. now rewrite E, Hk.
+Qed.
+Lemma first_index_none {A} (f : A -> bool) l : forall i, first_index f l i = None -> existsb f l = false.
+Proof.
+  induction l as [|x t IH]; intros i H; simpl in *; [reflexivity|].
+  destruct (f x); [discriminate|]. simpl. now apply (IH (S i)).
+Qed.
+Lemma existsb_firstn_false {A} (f : A -> bool) k l : existsb f l = false -> existsb f (firstn k l) = false.
+Proof.
+  revert l; induction k as [|k IH]; intros [|x t] H; simpl in *; auto.
+  apply orb_false_iff in H as [H1 H2]. now rewrite H1, IH.
+Qed.
+Lemma body_stops l : existsb stops_ns l = false -> existsb is_body l = false.
+Proof.
+  induction l as [|x t IH]; simpl; [reflexivity|]. intros H. apply orb_false_iff in H as [H1 H2].
+  rewrite (IH H2). destruct x; simpl in *; try discriminate; reflexivity.
+Qed.
+
+Lemma firstn_snoc {A} (a : list A) x b : firstn (S (length a)) (a ++ x :: b) = a ++ [x].
+Proof. induction a as [|y a IH]; simpl; [reflexivity|]. simpl in IH. now rewrite IH. Qed.
+
+Lemma place_ns_nobody idx io sh i :
+  ordered sh = true -> place_ns idx io sh = inl i -> existsb is_body (firstn i sh) = false.
+Proof.
+  intros Ho. unfold place_ns.
+  destruct (Nat.ltb (length sh) (match idx with Some i0 => i0 | None => length sh end)); [discriminate|].
+  destruct io.
+  - destruct (after_last_ns sh 0 None) as [j|] eqn:E.
+    + intros H; inversion H; subst. apply after_last_ns_spec in E as [E|(a & b & r & -> & ->)]; [discriminate|].
+      replace (0 + S (length a)) with (S (length a)) by lia. rewrite firstn_snoc, existsb_app. simpl.
+      now rewrite (ordered_prefix_nobody _ _ _ Ho).
+    + destruct (first_index stops_ns sh 0) as [j|] eqn:E2.
+      * intros H; inversion H; subst. apply first_index_spec in E2 as (k & -> & Hk). simpl. now apply body_stops.
+      * intros H; inversion H; subst. apply first_index_none in E2. apply existsb_firstn_false. now apply body_stops.
+  - destruct (existsb is_charset _); [discriminate|].
+    destruct (existsb is_body (firstn _ sh)) eqn:E; [discriminate|]. intros H; inversion H; subst. exact E.
+Qed.
+
+Lemma ordered_insert_ns r idx io sh : ordered sh = true -> ordered (fst (insert_ns r idx io sh)) = true.
+Proof.
+  intros Ho. unfold insert_ns. destruct (place_ns idx io sh) as [i|] eqn:E; [|exact Ho].
+  destruct (same_binding (view sh) r); [exact Ho|].
+  unfold clean. apply ordered_clean_loop. simpl. apply ordered_insert; [|exact Ho].
+  now apply (place_ns_nobody idx io).
+Qed.
+
+Lemma ordered_delete i sh : ordered sh = true -> ordered (fst (delete_rule i sh)) = true.
+Proof.
+  intros Ho. unfold delete_rule. destruct (nth_error sh i) as [[r| | | |]|]; simpl; try exact Ho;
+    try (now apply ordered_remove).
+  destruct (can_delete r sh); simpl; [now apply ordered_remove|exact Ho].
+Qed.
+
+Lemma find_last_from_lt p l : forall i acc k,
+  find_last_from p l i acc = Some k -> (acc = Some k) \/ (i <= k < i + length l).
+Proof.
+  induction l as [|r t IH]; intros i acc k H; simpl in H; [now left|].
+  apply IH in H as [H|H]; [|right; simpl; lia].
+  destruct (eqs (prefix r) p); [inversion H; subst; right; simpl; lia|now left].
+Qed.
+Lemma find_last_lt p l k : find_last p l = Some k -> k < length l.
+Proof. unfold find_last. intros H. apply find_last_from_lt in H as [H|H]; [discriminate|lia]. Qed.
+
+(* in an ordered sheet the rule found at (index among @namespace rules) is never a rule set *)
+Lemma ordered_nth_nobody sh : forall k x,
+  ordered sh = true -> k < length (nsl sh) -> nth_error sh k = Some x -> rule_items x = [].
+Proof.
+  induction sh as [|r t IH]; intros k x Ho Hk Hn; [destruct k; discriminate|].
+  simpl in Ho. destruct (is_body r) eqn:Eb.
+  - apply negb_true_iff in Ho. apply no_ns_nsl in Ho. destruct r; simpl in *; try discriminate; rewrite Ho in Hk; simpl in Hk; lia.
+  - destruct k as [|k]; simpl in Hn.
+    + inversion Hn; subst. destruct x; simpl in *; try discriminate; reflexivity.
+    + apply (IH k x Ho); [|exact Hn]. destruct r; simpl in *; lia.
+Qed.
+
+Lemma items_of_delitem p sh : ordered sh = true -> items_of (fst (delitem p sh)) = items_of sh.
+Proof.
+  intros Ho. unfold delitem. destruct (find_last p (nsl sh)) as [k|] eqn:E; [|reflexivity].
+  apply find_last_lt in E. unfold delete_rule. destruct (nth_error sh k) as [x|] eqn:En; [|reflexivity].
+  pose proof (ordered_nth_nobody sh k x Ho E En) as Hx.
+  destruct x; simpl; try (now apply (items_of_remove k sh _ En)).
+  destruct (can_delete r sh); simpl; [now apply (items_of_remove k sh _ En)|reflexivity].
+Qed.
+
+Lemma items_of_setitem p u sh : items_of (fst (setitem p u sh)) = items_of sh.
+Proof.
+  unfold setitem. destruct (find_last p (nsl sh)) as [k|].
+  - destruct (nth_error (nsl sh) k); [|reflexivity].
+    destruct (dhas (view sh) p && negb (eqs (uri n) u)); [reflexivity|].
+    destruct (mems u (dvals (view sh))); [apply items_of_upd|reflexivity].
+  - destruct u; [reflexivity|apply items_of_insert].
+Qed.
+
+Lemma ordered_setitem p u sh : ordered sh = true -> ordered (fst (setitem p u sh)) = true.
+Proof.
+  intros Ho. unfold setitem. destruct (find_last p (nsl sh)) as [k|].
+  - destruct (nth_error (nsl sh) k); [|exact Ho].
+    destruct (dhas (view sh) p && negb (eqs (uri n) u)); [exact Ho|].
+    destruct (mems u (dvals (view sh))); simpl; [now rewrite ordered_upd|exact Ho].
+  - destruct u; [exact Ho|now apply ordered_insert_ns].
+Qed.
+
+Lemma step_frame o sh :
+  ordered sh = true -> items_of (fst (step o sh)) = items_of sh /\ ordered (fst (step o sh)) = true.
+Proof.
+  intros Ho. destruct o; simpl.
+  - split; [apply items_of_setitem|now apply ordered_setitem].
+  - split; [now apply items_of_delitem|]. unfold delitem. destruct (find_last p (nsl sh)); [now apply ordered_delete|exact Ho].
+  - split; [apply items_of_insert|now apply ordered_insert_ns].
+  - split; [apply items_of_insert|now apply ordered_insert_ns].
+  - unfold insert_text. destruct (Nat.ltb _ _); [now split|]. destruct (dhas (view sh) p); [now split|].
+    split; [apply items_of_insert|now apply ordered_insert_ns].
+  - unfold insert_text. destruct (Nat.ltb _ _); [now split|]. destruct (dhas (view sh) p); [now split|].
+    split; [apply items_of_insert|now apply ordered_insert_ns].
+  - destruct (nth_error sh i) as [[r| | | |]|] eqn:E; try now split.
+    split; [now apply (items_of_delete_ns i sh r)|now apply ordered_delete].
+Qed.
+
+Lemma run_frame ops : forall sh,
+  ordered sh = true -> items_of (run ops sh) = items_of sh /\ ordered (run ops sh) = true.
+Proof.
+  induction ops as [|o t IH]; intros sh Ho; simpl; [now split|].
+  destruct (step_frame o sh Ho) as [H1 H2]. destruct (IH _ H2) as [H3 H4]. split; [congruence|exact H4].
+Qed.
+
+(* ------------------------------------------------------------------ parsing yields an ordered sheet *)
+Lemma ordered_snoc_other a x : ordered a = true -> is_ns x = false -> ordered (a ++ [x]) = true.
+Proof.
+  induction a as [|r a IH]; simpl; intros Ho Hx.
+  - destruct (is_body x); reflexivity.
+  - destruct (is_body r); [|now apply IH]. apply negb_true_iff in Ho. apply negb_true_iff.
+    rewrite existsb_app. simpl. now rewrite Ho, Hx.
+Qed.
+Lemma ordered_snoc_ns a r : existsb is_body a = false -> ordered (a ++ [RNs r]) = true.
+Proof.
+  induction a as [|x a IH]; simpl; [reflexivity|]. intros H. apply orb_false_iff in H as [H1 H2].
+  rewrite H1. now apply IH.
+Qed.
+Lemma replace_uri_kind p u x : is_body (replace_uri p u x) = is_body x /\ is_ns (replace_uri p u x) = is_ns x.
+Proof. destruct x; simpl; auto. destruct (eqs (prefix r) p); auto. Qed.
+Lemma map_replace_existsb p u sh :
+  existsb is_body (map (replace_uri p u) sh) = existsb is_body sh /\
+  existsb is_ns (map (replace_uri p u) sh) = existsb is_ns sh.
+Proof.
+  induction sh as [|x t [IH1 IH2]]; simpl; [auto|].
+  destruct (replace_uri_kind p u x) as [E1 E2]. now rewrite E1, E2, IH1, IH2.
+Qed.
+Lemma map_replace_ordered p u sh : ordered (map (replace_uri p u) sh) = ordered sh.
+Proof.
+  induction sh as [|x t IH]; simpl; [reflexivity|].
+  destruct (replace_uri_kind p u x) as [E1 _]. rewrite E1.
+  destruct (map_replace_existsb p u t) as [_ E]. now rewrite E, IH.
+Qed.
+
+Lemma parse_loop_ordered l : forall d e sh,
+  ordered sh = true -> (e <= 2 -> existsb is_body sh = false) ->
+  ordered (parse_loop d e sh l) = true.
+Proof.
+  induction l as [|x t IH]; intros d e sh Ho Hb; simpl; [exact Ho|].
+  destruct x.
+  - destruct (Nat.ltb 2 e) eqn:E; [now apply IH|]. apply Nat.ltb_ge in E.
+    destruct (dhas d p).
+    + apply IH; [now rewrite map_replace_ordered|]. intros _.
+      destruct (map_replace_existsb p u sh) as [E1 _]. rewrite E1. now apply Hb.
+    + apply IH; [apply ordered_snoc_ns; now apply Hb|]. intros _. rewrite existsb_app. simpl. rewrite (Hb E). reflexivity.
+  - destruct (resolve_all d l); apply IH; try exact Ho; try (intros; lia).
+    now apply ordered_snoc_other.
+  - apply IH; [now apply ordered_snoc_other|intros; lia].
+  - destruct (Nat.ltb 0 e) eqn:E; [now apply IH|]. apply Nat.ltb_ge in E.
+    apply IH; [now apply ordered_snoc_other|]. intros _. rewrite existsb_app. simpl. rewrite Hb by lia. reflexivity.
+  - apply IH; [now apply ordered_snoc_other|]. intros H. assert (H' : e <= 2) by (destruct e; lia). rewrite existsb_app. simpl. rewrite (Hb H'). reflexivity.
+Qed.
+
+Lemma parse_ordered l : ordered (fst (parse l)) = true.
+Proof.
+  unfold parse, clean. apply ordered_clean_loop. simpl. now apply parse_loop_ordered.
+Qed.
+
+(* ------------------------------------------------------------------ C. every @namespace rule keeps (and prints) its URI *)
+Definition good (r : nsrule) : Prop :=
+  (prefix r = [] /\ items r = [NUri (uri r)]) \/ items r = [NPrefix (prefix r); NUri (uri r)].
+Definition goodr (x : rule) : Prop := match x with RNs r => good r | _ => True end.
+Definition AllGood (sh : sheet) : Prop := Forall goodr sh.
+
+Lemma good_ser r : good r -> ser_ns r = Some (prefix r, uri r) /\ In (NUri (uri r)) (items r).
+Proof.
+  unfold good, ser_ns. intros [[Hp Hi]|Hi]; rewrite Hi; simpl; [rewrite Hp|]; auto.
+Qed.
+Lemma good_obj p u : good (mk_obj p u).
+Proof. right. reflexivity. Qed.
+Lemma good_text p u : good (mk_text p u).
+Proof. destruct p; [left|right]; simpl; auto. Qed.
+Lemma good_set_prefix p r : good r -> good (set_prefix p r).
+Proof. unfold good, set_prefix. intros [[Hp Hi]|Hi]; rewrite Hi; simpl; right; reflexivity. Qed.
+Lemma good_replace p u x : goodr x -> goodr (replace_uri p u x).
+Proof.
+  destruct x; simpl; auto. destruct (eqs (prefix r) p); simpl; auto.
+  unfold good. intros [[Hp Hi]|Hi]; rewrite Hi; simpl; [left|right]; auto.
+Qed.
+
+Lemma forall_insert {A} (P : A -> Prop) i x l : P x -> Forall P l -> Forall P (insert_at i x l).
+Proof.
+  revert l; induction i as [|i IH]; intros l Hx Hl; simpl; [now constructor|].
+  destruct l as [|y t]; [now constructor|]. inversion Hl; subst. constructor; auto.
+Qed.
+Lemma forall_remove {A} (P : A -> Prop) i l : Forall P l -> Forall P (remove_at i l).
+Proof.
+  revert i; induction l as [|y t IH]; intros [|i] Hl; simpl; auto; inversion Hl; subst; auto.
+Qed.
+Lemma forall_clean_loop (P : rule -> Prop) v rest : forall kept,
+  Forall P (kept ++ rest) -> Forall P (fst (clean_loop v kept rest)).
+Proof.
+  induction rest as [|x t IH]; intros kept H; simpl; [now rewrite app_nil_r in H|].
+  destruct x; try (apply IH; rewrite <- app_assoc; exact H).
+  destruct (pair_in (prefix r) (uri r) v); [apply IH; rewrite <- app_assoc; exact H|].
+  destruct (can_delete r (kept ++ RNs r :: t)); simpl; [|exact H].
+  apply IH. apply Forall_app in H as [H1 H2]. inversion H2; subst. apply Forall_app. now split.
+Qed.
+Lemma allgood_upd k p sh : AllGood sh -> AllGood (upd_ns k (set_prefix p) sh).
+Proof.
+  unfold AllGood. revert k; induction sh as [|x t IH]; intros k H; simpl; [constructor|].
+  inversion H; subst. destruct x; try (constructor; auto).
+  destruct k; constructor; auto. now apply good_set_prefix.
+Qed.
+Lemma allgood_insert r idx io sh : good r -> AllGood sh -> AllGood (fst (insert_ns r idx io sh)).
+Proof.
+  intros Hr H. unfold insert_ns. destruct (place_ns idx io sh); [|exact H].
+  destruct (same_binding (view sh) r); [exact H|].
+  unfold clean, AllGood. apply forall_clean_loop. simpl. now apply forall_insert.
+Qed.
+Lemma allgood_delete i sh : AllGood sh -> AllGood (fst (delete_rule i sh)).
+Proof.
+  intros H. unfold delete_rule. destruct (nth_error sh i) as [[r| | | |]|]; simpl; try exact H;
+    try (now apply forall_remove).
+  destruct (can_delete r sh); simpl; [now apply forall_remove|exact H].
+Qed.
+Lemma step_allgood o sh : AllGood sh -> AllGood (fst (step o sh)).
+Proof.
+  intros H. destruct o; simpl.
+  - unfold setitem. destruct (find_last p (nsl sh)) as [k|].
+    + destruct (nth_error (nsl sh) k); [|exact H].
+      destruct (dhas (view sh) p && negb (eqs (uri n) u)); [exact H|].
+      destruct (mems u (dvals (view sh))); simpl; [now apply allgood_upd|exact H].
+    + destruct u; [exact H|]. apply allgood_insert; [apply good_obj|exact H].
+  - unfold delitem. destruct (find_last p (nsl sh)); [now apply allgood_delete|exact H].
+  - apply allgood_insert; [apply good_obj|exact H].
+  - apply allgood_insert; [apply good_obj|exact H].
+  - unfold insert_text. destruct (Nat.ltb _ _); [exact H|]. destruct (dhas (view sh) p); [exact H|].
+    apply allgood_insert; [apply good_text|exact H].
+  - unfold insert_text. destruct (Nat.ltb _ _); [exact H|]. destruct (dhas (view sh) p); [exact H|].
+    apply allgood_insert; [apply good_text|exact H].
+  - destruct (nth_error sh i) as [[r| | | |]|]; try exact H. now apply allgood_delete.
+Qed.
+Lemma run_allgood ops : forall sh, AllGood sh -> AllGood (run ops sh).
+Proof. induction ops as [|o t IH]; intros sh H; simpl; [exact H|]. apply IH. now apply step_allgood. Qed.
+
+Lemma parse_loop_allgood l : forall d e sh, AllGood sh -> AllGood (parse_loop d e sh l).
+Proof.
+  unfold AllGood. induction l as [|x t IH]; intros d e sh H; simpl; [exact H|].
+  destruct x.
+  - destruct (Nat.ltb 2 e); [now apply IH|]. destruct (dhas d p); apply IH.
+    + apply Forall_forall. intros y Hy. apply in_map_iff in Hy as (z & <- & Hz). apply good_replace.
+      rewrite Forall_forall in H. now apply H.
+    + apply Forall_app. split; [exact H|]. constructor; [apply good_text|constructor].
+  - destruct (resolve_all d l); apply IH; try exact H. apply Forall_app. split; [exact H|]. repeat constructor.
+  - apply IH. apply Forall_app. split; [exact H|]. repeat constructor.
+  - destruct (Nat.ltb 0 e); apply IH; try exact H. apply Forall_app. split; [exact H|]. repeat constructor.
+  - apply IH. apply Forall_app. split; [exact H|]. repeat constructor.
+Qed.
+Lemma parse_allgood l : AllGood (fst (parse l)).
+Proof.
+  unfold parse, clean, AllGood. apply forall_clean_loop. simpl. apply parse_loop_allgood. constructor.
+Qed.
+
+Lemma allgood_nsl sh r : AllGood sh -> In r (nsl sh) -> good r.
+Proof.
+  unfold AllGood. induction sh as [|x t IH]; simpl; [tauto|]. intros H Hin. inversion H; subst.
+  destruct x; simpl in *; auto. destruct Hin as [<-|Hin]; auto.
+Qed.
+
+(* ------------------------------------------------------------------ D. a used URI keeps a declaration *)
+Definition cnt (u : str) (sh : sheet) : nat := count_uri u (nsl sh).
+
+Lemma existsb_concat {A} (f : A -> bool) ls : existsb (existsb f) ls = existsb f (concat ls).
+Proof. induction ls as [|l t IH]; simpl; [reflexivity|]. now rewrite existsb_app, IH. Qed.
+Lemma used_items u sh : used u sh = existsb (item_uses u) (items_of sh).
+Proof.
+  unfold used, items_of. induction sh as [|x t IH]; simpl; [reflexivity|].
+  rewrite existsb_app, IH. f_equal. destruct x; simpl; auto. apply existsb_concat.
+Qed.
+Lemma count_app u a b : count_uri u (a ++ b) = count_uri u a + count_uri u b.
+Proof. induction a as [|r a IH]; simpl; [reflexivity|]. rewrite IH. lia. Qed.
+
+Lemma cnt_remove_ns u i sh r :
+  nth_error sh i = Some (RNs r) -> cnt u sh = cnt u (remove_at i sh) + (if eqs (uri r) u then 1 else 0).
+Proof.
+  unfold cnt. revert i; induction sh as [|x t IH]; intros [|i] H; simpl in *; try discriminate.
+  - inversion H; subst. simpl. lia.
+  - destruct x; simpl; rewrite ?(IH i H); lia.
+Qed.
+Lemma nsl_remove_other i sh x : nth_error sh i = Some x -> is_ns x = false -> nsl (remove_at i sh) = nsl sh.
+Proof.
+  revert i; induction sh as [|y t IH]; intros [|i] H Hx; simpl in *; try discriminate.
+  - inversion H; subst. destruct x; simpl in *; try discriminate; reflexivity.
+  - destruct y; simpl; rewrite ?(IH i H Hx); reflexivity.
+Qed.
+Lemma cnt_insert u i r sh : cnt u (insert_at i (RNs r) sh) = cnt u sh + (if eqs (uri r) u then 1 else 0).
+Proof.
+  unfold cnt. revert sh; induction i as [|i IH]; intros sh; simpl; [lia|].
+  destruct sh as [|y t]; simpl; [lia|]. destruct y; simpl; rewrite IH; lia.
+Qed.
+Lemma cnt_upd u k p sh : cnt u (upd_ns k (set_prefix p) sh) = cnt u sh.
+Proof.
+  unfold cnt. revert k; induction sh as [|y t IH]; intros k; simpl; [reflexivity|].
+  destruct y; simpl; rewrite ?IH; try reflexivity. destruct k; simpl; [reflexivity|now rewrite IH].
+Qed.
+
+Lemma can_delete_keeps u r sh :
+  can_delete r sh = true -> used u sh = true -> 1 <= cnt u sh ->
+  1 + (if eqs (uri r) u then 1 else 0) <= cnt u sh.
+Proof.
+  unfold can_delete, cnt. intros Hc Hu Hn. destruct (eqs (uri r) u) eqn:E; [|lia].
+  apply eqs_spec in E. subst u. rewrite Hu in Hc. simpl in Hc. apply negb_true_iff, Nat.eqb_neq in Hc. lia.
+Qed.
+
+Lemma used_mid u a r b : used u (a ++ RNs r :: b) = used u (a ++ b).
+Proof. unfold used. rewrite !existsb_app. reflexivity. Qed.
+Lemma cnt_mid u a r b : cnt u (a ++ RNs r :: b) = cnt u (a ++ b) + (if eqs (uri r) u then 1 else 0).
+Proof. unfold cnt. rewrite !nsl_app. simpl. rewrite !count_app. simpl. lia. Qed.
+
+Lemma clean_loop_count u v rest : forall kept,
+  used u (kept ++ rest) = true -> 1 <= cnt u (kept ++ rest) -> 1 <= cnt u (fst (clean_loop v kept rest)).
+Proof.
+  induction rest as [|x t IH]; intros kept Hu Hn; simpl; [now rewrite app_nil_r in Hn|].
+  destruct x; try (apply IH; rewrite <- app_assoc; assumption).
+  destruct (pair_in (prefix r) (uri r) v); [apply IH; rewrite <- app_assoc; assumption|].
+  destruct (can_delete r (kept ++ RNs r :: t)) eqn:Ec; simpl; [|exact Hn].
+  pose proof (can_delete_keeps u r _ Ec Hu Hn) as Hk.
+  apply IH; [now rewrite used_mid in Hu|]. rewrite cnt_mid in Hk. lia.
+Qed.
+
+Lemma insert_count u r idx io sh :
+  used u sh = true -> 1 <= cnt u sh -> 1 <= cnt u (fst (insert_ns r idx io sh)).
+Proof.
+  intros Hu Hn. unfold insert_ns. destruct (place_ns idx io sh) as [i|]; [|exact Hn].
+  destruct (same_binding (view sh) r); [exact Hn|].
+  unfold clean. apply clean_loop_count; simpl.
+  - rewrite used_items, items_of_insert_ns, <- used_items. exact Hu.
+  - rewrite cnt_insert. lia.
+Qed.
+Lemma delete_count u i sh :
+  used u sh = true -> 1 <= cnt u sh -> 1 <= cnt u (fst (delete_rule i sh)).
+Proof.
+  intros Hu Hn. unfold delete_rule. destruct (nth_error sh i) as [x|] eqn:E; [|exact Hn].
+  destruct x; simpl; try (unfold cnt; rewrite (nsl_remove_other i sh _ E); [exact Hn|reflexivity]).
+  destruct (can_delete r sh) eqn:Ec; simpl; [|exact Hn].
+  pose proof (can_delete_keeps u r _ Ec Hu Hn) as Hk. rewrite (cnt_remove_ns u i sh r E) in Hk. lia.
+Qed.
+Lemma step_count u o sh : used u sh = true -> 1 <= cnt u sh -> 1 <= cnt u (fst (step o sh)).
+Proof.
+  intros Hu Hn. destruct o; simpl.
+  - unfold setitem. destruct (find_last p (nsl sh)) as [k|].
+    + destruct (nth_error (nsl sh) k); [|exact Hn].
+      destruct (dhas (view sh) p && negb (eqs (uri n) u0)); [exact Hn|].
+      destruct (mems u0 (dvals (view sh))); simpl; [now rewrite cnt_upd|exact Hn].
+    + destruct u0; [exact Hn|now apply insert_count].
+  - unfold delitem. destruct (find_last p (nsl sh)); [now apply delete_count|exact Hn].
+  - now apply insert_count.
+  - now apply insert_count.
+  - unfold insert_text. destruct (Nat.ltb _ _); [exact Hn|]. destruct (dhas (view sh) p); [exact Hn|now apply insert_count].
+  - unfold insert_text. destruct (Nat.ltb _ _); [exact Hn|]. destruct (dhas (view sh) p); [exact Hn|now apply insert_count].
+  - destruct (nth_error sh i) as [[r| | | |]|]; try exact Hn. now apply delete_count.
+Qed.
+
+Lemma run_count u ops : forall sh,
+  ordered sh = true -> used u sh = true -> 1 <= cnt u sh ->
+  used u (run ops sh) = true /\ 1 <= cnt u (run ops sh).
+Proof.
+  induction ops as [|o t IH]; intros sh Ho Hu Hn; simpl; [now split|].
+  destruct (step_frame o sh Ho) as [Hi Ho']. apply IH; [exact Ho'| |now apply step_count].
+  rewrite used_items, Hi, <- used_items. exact Hu.
+Qed.
+
+Lemma cnt_In u sh : 1 <= cnt u sh <-> exists r, In r (nsl sh) /\ uri r = u.
+Proof.
+  unfold cnt. induction (nsl sh) as [|r t IH]; simpl; [split; [lia|intros (r & [] & _)]|].
+  destruct (eqs (uri r) u) eqn:E.
+  - apply eqs_spec in E. split; [eauto|lia].
+  - apply eqs_false in E. rewrite IH. split; intros (r' & H1 & H2); eauto.
+    destruct H1 as [<-|H1]; [contradiction|eauto].
+Qed.
+
+(* a selector item with a string URI makes that URI "used" *)
+Lemma pair_used k u n sh : In (IPair k (UStr u) n) (items_of sh) -> used u sh = true.
+Proof.
+  intros H. rewrite used_items. apply existsb_exists. eexists; split; [exact H|]. simpl. apply eqs_refl.
+Qed.
+
+(* ------------------------------------------------------------------ E. the view of a clean sheet *)
+Definition Clean (sh : sheet) : Prop := NoDup (map prefix (nsl sh)) /\ NoDup (map uri (nsl sh)).
+Definition pr (r : nsrule) : str * str := (prefix r, uri r).
+
+Lemma dset_fresh d k v : ~ In k (map fst d) -> dset d k v = d ++ [(k, v)].
+Proof.
+  induction d as [|[k' v'] t IH]; simpl; [reflexivity|]. intros H.
+  destruct (eqs k' k) eqn:E; [apply eqs_spec in E; subst; tauto|]. rewrite IH; tauto.
+Qed.
+
+Lemma view_of_clean l :
+  NoDup (map prefix l) -> NoDup (map uri l) -> view_of l = rev (map pr l).
+Proof.
+  induction l as [|r t IH]; simpl; [reflexivity|]. intros Hp Hu. inversion Hp; subst. inversion Hu; subst.
+  unfold view_step. rewrite (IH H2 H4).
+  assert (E1 : mems (uri r) (dvals (rev (map pr t))) = false).
+  { destruct (mems _ _) eqn:E; [|reflexivity]. apply mems_In in E. unfold dvals in E.
+    rewrite map_rev, map_map, <- in_rev in E. simpl in E. contradiction. }
+  rewrite E1. apply dset_fresh. rewrite map_rev, map_map, <- in_rev. simpl. exact H1.
+Qed.
+
+Lemma view_clean sh : Clean sh -> view sh = rev (ns_pairs sh).
+Proof. intros [H1 H2]. unfold view, ns_pairs. now apply view_of_clean. Qed.
+
+Lemma pair_in_In p u d : pair_in p u d = true <-> In (p, u) d.
+Proof.
+  induction d as [|[p' u'] t IH]; simpl; [split; [discriminate|tauto]|].
+  rewrite orb_true_iff, andb_true_iff, !eqs_spec, IH. split.
+  - intros [[-> ->]|H]; auto.
+  - intros [H|H]; [inversion H; auto|auto].
+Qed.
+
+Lemma clean_loop_noop v rest : forall kept,
+  (forall r, In r (nsl rest) -> In (pr r) v) -> clean_loop v kept rest = (kept ++ rest, Ok).
+Proof.
+  induction rest as [|x t IH]; intros kept H; simpl; [now rewrite app_nil_r|].
+  destruct x; simpl in H; try (rewrite IH by exact H; now rewrite <- app_assoc).
+  assert (E : pair_in (prefix r) (uri r) v = true) by (apply pair_in_In; apply (H r); now left).
+  rewrite E, IH by (intros; apply H; now right). now rewrite <- app_assoc.
+Qed.
+
+(* on a clean sheet _cleanNamespaces removes nothing: every @namespace rule is effective *)
+Lemma clean_noop sh : Clean sh -> clean sh = (sh, Ok).
+Proof.
+  intros Hc. unfold clean. rewrite (clean_loop_noop _ sh []); [reflexivity|].
+  intros r Hr. rewrite (view_clean sh Hc). apply -> in_rev. unfold ns_pairs. now apply (in_map pr).
+Qed.
+
+(* as a mapping: prefix p is bound to u exactly when a rule declares it *)
+Lemma dget_In_nodup d k v : NoDup (map fst d) -> (dget d k = Some v <-> In (k, v) d).
+Proof.
+  induction d as [|[k' v'] t IH]; simpl; intros Hn; [split; [discriminate|tauto]|].
+  inversion Hn; subst. destruct (eqs k' k) eqn:E.
+  - apply eqs_spec in E. subst k'. split.
+    + intros H; inversion H; auto.
+    + intros [H|H]; [inversion H; auto|]. exfalso. apply H1. now apply (in_map fst) in H.
+  - apply eqs_false in E. rewrite (IH H2). split; [auto|]. intros [H|H]; [inversion H; congruence|exact H].
+Qed.
+
+Lemma view_binds sh p u : Clean sh -> (dget (view sh) p = Some u <-> exists r, In r (nsl sh) /\ prefix r = p /\ uri r = u).
+Proof.
+  intros Hc. rewrite (view_clean sh Hc). destruct Hc as [Hp _].
+  rewrite dget_In_nodup.
+  - rewrite <- in_rev. unfold ns_pairs. rewrite in_map_iff. split.
+    + intros (r & E & Hr). inversion E; subst. eauto.
+    + intros (r & Hr & <- & <-). eauto.
+  - rewrite map_rev. unfold ns_pairs. rewrite map_map. simpl. now apply NoDup_rev.
+Qed.
+
+(* ------------------------------------------------------------------ statements used by props/C15.v *)
+Lemma undeclared_rule_dropped d e sh k p n its t :
+  In (PSel k (FPfx p) n) its -> dget d p = None ->
+  resolve_all d its = None /\ parse_loop d e sh (SStyle its :: t) = parse_loop d 3 sh t.
+Proof. intros Hin Hd. pose proof (undeclared_rejected d k p n its Hin Hd) as H. split; [exact H|]. simpl. now rewrite H. Qed.
+
+Lemma pairs_frame ops sh : ordered sh = true -> pairs (run ops sh) = pairs sh.
+Proof. intros Ho. unfold pairs. now rewrite (proj1 (run_frame ops sh Ho)). Qed.
+
+Lemma pairs_frame_parsed stmts ops :
+  pairs (run ops (fst (parse stmts))) = pairs (fst (parse stmts)) /\
+  items_of (run ops (fst (parse stmts))) = items_of (fst (parse stmts)).
+Proof. split; [apply pairs_frame, parse_ordered|apply run_frame, parse_ordered]. Qed.
+
+Lemma ns_rule_keeps_uri_parsed stmts ops r :
+  In r (nsl (run ops (fst (parse stmts)))) -> ser_ns r = Some (prefix r, uri r) /\ In (NUri (uri r)) (items r).
+Proof. intros H. apply good_ser. apply (allgood_nsl _ r (run_allgood ops _ (parse_allgood stmts)) H). Qed.
+
+Lemma delete_protected_step sh i r :
+  nth_error sh i = Some (RNs r) -> used (uri r) sh = true -> cnt (uri r) sh = 1 ->
+  step (ODelRule i) sh = (sh, Raise ENoMod) /\ delete_rule i sh = (sh, Raise ENoMod).
+Proof.
+  intros Hn Hu Hc. simpl. unfold delete_rule. rewrite Hn. unfold can_delete. unfold cnt in Hc. rewrite Hu, Hc. simpl. auto.
+Qed.
+
+Lemma used_uri_stays_declared stmts ops k u n :
+  let sh := fst (parse stmts) in
+  In (IPair k (UStr u) n) (items_of sh) -> (exists r, In r (nsl sh) /\ uri r = u) ->
+  In (IPair k (UStr u) n) (items_of (run ops sh)) /\ exists r, In r (nsl (run ops sh)) /\ uri r = u.
+Proof.
+  intros sh Hin Hd. split.
+  - unfold sh. now rewrite (proj2 (pairs_frame_parsed stmts ops)).
+  - apply cnt_In. apply cnt_In in Hd. apply (run_count u ops sh); [apply parse_ordered|now apply (pair_used k u n)|exact Hd].
+Qed.
+
+Lemma view_matches_clean sh :
+  Clean sh ->
+  view sh = rev (ns_pairs sh) /\
+  (forall p u, dget (view sh) p = Some u <-> exists r, In r (nsl sh) /\ prefix r = p /\ uri r = u) /\
+  clean sh = (sh, Ok).
+Proof. intros Hc. split; [now apply view_clean|]. split; [intros; now apply view_binds|now apply clean_noop]. Qed.
